@@ -495,13 +495,15 @@ type WriteCase struct {
 var textAtoms = []string{"x", "́e", "a\x00b\x07", "\xed\xa0\x80", "\U0001F600", strings.Repeat("é", 200), "", "a\nb", "Ω$¤", "̈", "é́"}
 var timeAtoms = []time.Duration{time.Second, -time.Second, 100 * time.Hour, 0, 1<<62 - 1}
 
-func maybeAttrs(x *explore.C, site string) *astisub.StyleAttributes {
-	switch x.Choose(site, 4) {
-	case 0:
+// maybeAttrs: def is the default variant (0 full, 1 nil, 2 empty, 3 odd); the explorer may pick any other.
+func maybeAttrs(x *explore.C, site string, def int) *astisub.StyleAttributes {
+	v := (x.Choose(site, 4) + def) % 4
+	switch v {
+	case 2:
 		return &astisub.StyleAttributes{}
 	case 1:
 		return nil
-	case 2:
+	case 0:
 		j := astisub.JustificationCentered
 		return &astisub.StyleAttributes{SRTBold: true, SRTColor: astikit.StrPtr("red"), SSABold: astikit.BoolPtr(true), SSAPrimaryColour: astisub.ColorRed, SSAFontName: "f",
 			STLJustification: &j, STLPosition: &astisub.STLPosition{VerticalPosition: 20, MaxRows: 23, Rows: 1}, STLBoxing: astikit.BoolPtr(true), STLItalics: astikit.BoolPtr(true),
@@ -527,30 +529,31 @@ func buildLattice(x *explore.C) *astisub.Subtitles {
 	}
 	var style, parent *astisub.Style
 	var region *astisub.Region
-	switch x.Choose("styles", 5) {
-	case 0:
-		s.Styles = map[string]*astisub.Style{}
+	// default: two styles with DIFFERENT attribute sets (one full, one empty), the first inheriting from the second
+	switch x.Choose("styles", 4) {
 	case 1:
+		s.Styles = map[string]*astisub.Style{}
+	case 2:
 		s.Styles = nil
-	case 2, 3, 4:
-		parent = &astisub.Style{ID: "p", InlineStyle: maybeAttrs(x, "parent.inline")}
-		style = &astisub.Style{ID: "s", InlineStyle: maybeAttrs(x, "style.inline")}
-		if x.Bool("style.parent") {
+	case 0, 3:
+		parent = &astisub.Style{ID: "p", InlineStyle: maybeAttrs(x, "parent.inline", 2)}
+		style = &astisub.Style{ID: "s", InlineStyle: maybeAttrs(x, "style.inline", 0)}
+		if !x.Bool("style.no-parent") {
 			style.Style = parent
 		}
 		s.Styles = map[string]*astisub.Style{"s": style}
-		if x.Bool("parent.in-map") {
+		if !x.Bool("parent.not-in-map") {
 			s.Styles["p"] = parent
 		}
 	}
-	switch x.Choose("regions", 4) {
-	case 0:
-		s.Regions = map[string]*astisub.Region{}
+	switch x.Choose("regions", 3) {
 	case 1:
+		s.Regions = map[string]*astisub.Region{}
+	case 2:
 		s.Regions = nil
-	case 2, 3:
-		region = &astisub.Region{ID: "r", InlineStyle: maybeAttrs(x, "region.inline")}
-		if x.Bool("region.style") {
+	case 0:
+		region = &astisub.Region{ID: "r", InlineStyle: maybeAttrs(x, "region.inline", 0)}
+		if !x.Bool("region.no-style") {
 			region.Style = style
 			if style == nil {
 				region.Style = &astisub.Style{ID: "loose"}
@@ -561,14 +564,14 @@ func buildLattice(x *explore.C) *astisub.Subtitles {
 	n := explore.Pick(x, "nitems", 1, 2, 0)
 	for k := 0; k < n; k++ {
 		it := &astisub.Item{StartAt: explore.Pick(x, "start", timeAtoms...), EndAt: time.Second + explore.Pick(x, "end", timeAtoms...)}
-		it.InlineStyle = maybeAttrs(x, "item.inline")
-		if x.Bool("item.style") {
+		it.InlineStyle = maybeAttrs(x, "item.inline", 0)
+		if !x.Bool("item.no-style") {
 			it.Style = style
 			if style == nil {
 				it.Style = &astisub.Style{ID: "loose"}
 			}
 		}
-		if x.Bool("item.region") {
+		if !x.Bool("item.no-region") {
 			it.Region = region
 			if region == nil {
 				it.Region = &astisub.Region{ID: "loose"}
@@ -586,7 +589,7 @@ func buildLattice(x *explore.C) *astisub.Subtitles {
 			nr := explore.Pick(x, "nruns", 1, 0, 2)
 			for r := 0; r < nr; r++ {
 				li := astisub.LineItem{Text: explore.Pick(x, "text", textAtoms...)}
-				li.InlineStyle = maybeAttrs(x, "run.inline")
+				li.InlineStyle = maybeAttrs(x, "run.inline", 1)
 				if x.Bool("run.style") {
 					li.Style = style
 					if style == nil {
@@ -642,7 +645,99 @@ func checkWrite(wc WriteCase) (key, msg string, used int64) {
 	return "total.write." + fam + ".panic:" + panicSite(stack), fmt.Sprintf("writer %s on lattice point %v: %s\n%s", wc.Writer, wc.Choices, res, firstFrames(stack)), used
 }
 
+// single-attribute style profiles: each SSA/TTML/WebVTT/STL attribute alone (plus "none")
+var attrProfiles = []func() *astisub.StyleAttributes{
+	func() *astisub.StyleAttributes { return &astisub.StyleAttributes{} },
+	func() *astisub.StyleAttributes { return nil },
+	func() *astisub.StyleAttributes { return &astisub.StyleAttributes{SSAAlignment: astikit.IntPtr(2)} },
+	func() *astisub.StyleAttributes { return &astisub.StyleAttributes{SSAAlphaLevel: astikit.Float64Ptr(0.5)} },
+	func() *astisub.StyleAttributes { return &astisub.StyleAttributes{SSAAngle: astikit.Float64Ptr(1)} },
+	func() *astisub.StyleAttributes { return &astisub.StyleAttributes{SSABackColour: astisub.ColorRed} },
+	func() *astisub.StyleAttributes { return &astisub.StyleAttributes{SSABold: astikit.BoolPtr(true)} },
+	func() *astisub.StyleAttributes { return &astisub.StyleAttributes{SSABorderStyle: astikit.IntPtr(1)} },
+	func() *astisub.StyleAttributes { return &astisub.StyleAttributes{SSAEncoding: astikit.IntPtr(1)} },
+	func() *astisub.StyleAttributes { return &astisub.StyleAttributes{SSAFontName: "f"} },
+	func() *astisub.StyleAttributes { return &astisub.StyleAttributes{SSAFontSize: astikit.Float64Ptr(12)} },
+	func() *astisub.StyleAttributes { return &astisub.StyleAttributes{SSAItalic: astikit.BoolPtr(true)} },
+	func() *astisub.StyleAttributes { return &astisub.StyleAttributes{SSAMarginLeft: astikit.IntPtr(1)} },
+	func() *astisub.StyleAttributes { return &astisub.StyleAttributes{SSAMarginRight: astikit.IntPtr(1)} },
+	func() *astisub.StyleAttributes { return &astisub.StyleAttributes{SSAMarginVertical: astikit.IntPtr(1)} },
+	func() *astisub.StyleAttributes { return &astisub.StyleAttributes{SSAOutline: astikit.Float64Ptr(1)} },
+	func() *astisub.StyleAttributes { return &astisub.StyleAttributes{SSAOutlineColour: astisub.ColorBlue} },
+	func() *astisub.StyleAttributes { return &astisub.StyleAttributes{SSAPrimaryColour: astisub.ColorGreen} },
+	func() *astisub.StyleAttributes { return &astisub.StyleAttributes{SSAScaleX: astikit.Float64Ptr(1)} },
+	func() *astisub.StyleAttributes { return &astisub.StyleAttributes{SSAScaleY: astikit.Float64Ptr(1)} },
+	func() *astisub.StyleAttributes { return &astisub.StyleAttributes{SSASecondaryColour: astisub.ColorWhite} },
+	func() *astisub.StyleAttributes { return &astisub.StyleAttributes{SSAShadow: astikit.Float64Ptr(1)} },
+	func() *astisub.StyleAttributes { return &astisub.StyleAttributes{SSASpacing: astikit.Float64Ptr(1)} },
+	func() *astisub.StyleAttributes { return &astisub.StyleAttributes{SSAStrikeout: astikit.BoolPtr(true)} },
+	func() *astisub.StyleAttributes { return &astisub.StyleAttributes{SSAUnderline: astikit.BoolPtr(true)} },
+	func() *astisub.StyleAttributes { return &astisub.StyleAttributes{SSAEffect: "fx", SSALayer: astikit.IntPtr(1), SSAMarked: astikit.BoolPtr(true)} },
+	func() *astisub.StyleAttributes { return &astisub.StyleAttributes{TTMLColor: astikit.StrPtr("red"), TTMLTextAlign: astikit.StrPtr("center")} },
+	func() *astisub.StyleAttributes { return &astisub.StyleAttributes{WebVTTStyles: []string{"::cue{}"}, WebVTTLines: 2, WebVTTWidth: "40%"} },
+}
+
+type HeteroCase struct {
+	A      int    `json:"a"`
+	B      int    `json:"b"`
+	R      int    `json:"r"`
+	Writer  string `json:"writer"`
+}
+
+func buildHetero(h HeteroCase) *astisub.Subtitles {
+	s := astisub.NewSubtitles()
+	s.Metadata = &astisub.Metadata{Framerate: 25, STLDisplayStandardCode: "0"}
+	s.Styles["a"] = &astisub.Style{ID: "a", InlineStyle: attrProfiles[h.A]()}
+	s.Styles["b"] = &astisub.Style{ID: "b", InlineStyle: attrProfiles[h.B](), Style: s.Styles["a"]}
+	s.Regions["r"] = &astisub.Region{ID: "r", InlineStyle: attrProfiles[h.R](), Style: s.Styles["b"]}
+	s.Regions["q"] = &astisub.Region{ID: "q", InlineStyle: attrProfiles[h.A]()}
+	for k := 0; k < 2; k++ {
+		it := &astisub.Item{StartAt: time.Duration(k+1) * time.Second, EndAt: time.Duration(k+2) * time.Second, InlineStyle: attrProfiles[h.B](),
+			Lines: []astisub.Line{{Items: []astisub.LineItem{{Text: "x", InlineStyle: attrProfiles[h.A](), Style: s.Styles["a"]}, {Text: "y"}}}}}
+		if k == 0 {
+			it.Style, it.Region = s.Styles["b"], s.Regions["r"]
+		}
+		s.Items = append(s.Items, it)
+	}
+	return s
+}
+
+func checkHetero(h HeteroCase) (key, msg string, used int64) {
+	s := buildHetero(h)
+	res, used, stack := guarded(2000, func() { callWriter(h.Writer, s) })
+	fam := strings.Split(h.Writer, "-")[0]
+	switch {
+	case res == "":
+		return "", "", used
+	case res == "budget":
+		return "total.write." + fam + ".step-budget", fmt.Sprintf("writer %s exceeded its step budget on style profiles %+v", h.Writer, h), used
+	}
+	return "total.write." + fam + ".panic:" + panicSite(stack), fmt.Sprintf("writer %s on two styles/regions with attribute profiles %+v: %s\n%s", h.Writer, h, res, firstFrames(stack)), used
+}
+
 func writersRun(c *core.Ctx) {
+	// heterogeneous definition tables: every ordered pair of single-attribute profiles for two styles x 3 region profiles
+	for a := range attrProfiles {
+		for b := range attrProfiles {
+			for _, r := range []int{0, 1, len(attrProfiles) - 1} {
+				if !c.Mine() {
+					continue
+				}
+				for _, w := range writerNames {
+					h := HeteroCase{a, b, r, w}
+					key, msg, used := checkHetero(h)
+					out := "ok"
+					if key != "" {
+						out = key
+					}
+					c.Record("write.hetero."+w, core.Hash64(out, fmt.Sprint(used/8)), core.Hash64("hetero", w, fmt.Sprint(a, b, r)), func() interface{} { return h })
+					if key != "" {
+						c.Violate("hetero", key, msg, h, a+b+r)
+					}
+				}
+			}
+		}
+	}
 	bound := 2
 	if c.Tier == core.Thorough {
 		bound = 3
@@ -672,6 +767,12 @@ func writersRun(c *core.Ctx) {
 func replay(sub string, raw json.RawMessage) (string, bool) {
 	if !hooks.Instrumented {
 		// plain build: still meaningful for panics (no step budget)
+	}
+	if sub == "hetero" {
+		var h HeteroCase
+		json.Unmarshal(raw, &h)
+		k, m, _ := checkHetero(h)
+		return m, k != ""
 	}
 	if sub == "write" {
 		var wc WriteCase
